@@ -9,7 +9,7 @@ use crate::work::WorkError;
 
 use super::model::{self, ModelResult, Outcome, FailKind, GraphError};
 use super::rt::{self, Ev, Event, FsOp, Origin, SchedSpec, RootResult, Abort, FileMap};
-use super::scen::{Case, Op, SRule, DirPart, RULER_DIR, split_rules};
+use super::scen::{Case, Op, SRule, DirPart, ruler_dir, split_rules};
 use super::simsys::{World, Disk, Printed, RecPrinter};
 use super::util::{cache_name_of, show_bytes, H64};
 
@@ -133,11 +133,11 @@ pub fn invoke(world : &World, is_build : bool, goal : Option<String>, rulefiles 
         {
             if is_build
             {
-                build::build(sys, p, BuildParams::from_all(RULER_DIR.to_string(), rulefiles, None, goal))
+                build::build(sys, p, BuildParams::from_all(ruler_dir(), rulefiles, None, goal))
             }
             else
             {
-                build::clean(sys, RULER_DIR, rulefiles, goal)
+                build::clean(sys, &ruler_dir(), rulefiles, goal)
             }
         })
     };
@@ -174,18 +174,18 @@ pub fn invoke(world : &World, is_build : bool, goal : Option<String>, rulefiles 
 
 // ---------------------------------------------------------------- helpers over disks and events
 
-pub fn cache_dir() -> String { format!("{}/cache", RULER_DIR) }
-pub fn history_dir() -> String { format!("{}/history", RULER_DIR) }
-pub fn table_path() -> String { format!("{}/current_file_states", RULER_DIR) }
+pub fn cache_dir() -> String { format!("{}/cache", &ruler_dir()) }
+pub fn history_dir() -> String { format!("{}/history", &ruler_dir()) }
+pub fn table_path() -> String { format!("{}/current_file_states", &ruler_dir()) }
 
 pub fn in_ruler_dir(path : &str) -> bool
 {
-    path == RULER_DIR || path.starts_with(&format!("{}/", RULER_DIR))
+    path == &ruler_dir() || path.starts_with(&format!("{}/", &ruler_dir()))
 }
 
 pub fn in_cache(path : &str) -> bool
 {
-    path.starts_with(&format!("{}/cache/", RULER_DIR))
+    path.starts_with(&format!("{}/cache/", &ruler_dir()))
 }
 
 pub fn cache_contents(disk : &Disk) -> Vec<(String, Arc<Vec<u8>>)>
@@ -427,10 +427,11 @@ impl Runner
 {
     pub fn new(case : &Case) -> Runner
     {
-        let world = World::new(case.knobs.clone(), RULER_DIR);
+        super::scen::set_ruler_dir(&case.ruler_dir_name());
+        let world = World::new(case.knobs.clone(), &ruler_dir());
         for d in case.dirs.iter()
         {
-            world.user_mkdir(d);
+            if !d.starts_with('@') { world.user_mkdir(d); }
         }
         for (p, c) in case.files.iter()
         {
@@ -556,7 +557,7 @@ impl Runner
             {
                 match part
                 {
-                    DirPart::Whole => { self.world.user_delete_tree(RULER_DIR); self.record.clear(); },
+                    DirPart::Whole => { self.world.user_delete_tree(&ruler_dir()); self.record.clear(); },
                     DirPart::Cache => self.world.user_delete_tree(&cache_dir()),
                     DirPart::History => { self.world.user_delete_tree(&history_dir()); self.record.clear(); },
                     DirPart::HistoryFile(pick) =>
@@ -725,14 +726,14 @@ impl Runner
                     Some((old, old_ws)) =>
                     {
                         let merged : BTreeSet<usize> = old.union(&scope).cloned().collect();
-                        let mut ws = inv.after.workspace(RULER_DIR);
+                        let mut ws = inv.after.workspace(&ruler_dir());
                         for (k, v) in old_ws.iter()
                         {
                             ws.entry(k.clone()).or_insert(v.clone());
                         }
                         (merged, ws)
                     },
-                    None => (scope.clone(), inv.after.workspace(RULER_DIR)),
+                    None => (scope.clone(), inv.after.workspace(&ruler_dir())),
                 };
                 if merged.iter().all(|i| scope.contains(i))
                 {
@@ -1031,14 +1032,14 @@ pub fn oracle_c09(inv : &Inv) -> Vec<Violation>
                     if !in_ruler_dir(&n) && !scope_targets.contains(&n)
                     {
                         out.push(vio("C09", format!("C09:ruler-mutated-foreign-path:{:?}", op),
-                            format!("op {}: ruler issued {:?} on {} which is neither an in-scope target nor inside {}", inv.op_index, op, n, RULER_DIR)));
+                            format!("op {}: ruler issued {:?} on {} which is neither an in-scope target nor inside {}", inv.op_index, op, n, &ruler_dir())));
                     }
                 }
             }
         }
     }
-    let wb = inv.before.workspace(RULER_DIR);
-    let wa = inv.after.workspace(RULER_DIR);
+    let wb = inv.before.workspace(&ruler_dir());
+    let wa = inv.after.workspace(&ruler_dir());
     for (p, (c, x)) in wb.iter()
     {
         if scope_targets.contains(p) { continue; }
